@@ -154,4 +154,149 @@ theorem facts_ok :
 
 theorem source_pinned : Gen.C19.pins = Pins.C19 := by decide
 
+/-! ### `SuffrageProofByBlockHeight` for every chain of consecutive heights and every cut -/
+
+/-- the committed chain holds the blocks of heights 0, 1, 2, … -/
+def Linked (c : Chain) : Prop := ∀ i (h : i < c.length), (c[i]'h).height = i
+
+theorem linked_mem_lt (c : Chain) (hl : Linked c) (b : Block) (hb : b ∈ c) : b.height < c.length := by
+  obtain ⟨i, hi, rfl⟩ := List.getElem_of_mem hb
+  rw [hl i hi]; exact hi
+
+theorem take_heights (c : Chain) (hl : Linked c) (p : Nat) (b : Block) (hb : b ∈ c.take p) : b.height < p := by
+  obtain ⟨i, hi, rfl⟩ := List.getElem_of_mem hb
+  have hi' : i < p ∧ i < c.length := by
+    have := hi; simp only [List.length_take] at this; omega
+  rw [List.getElem_take]
+  rw [hl i hi'.2]; exact hi'.1
+
+theorem drop_heights (c : Chain) (hl : Linked c) (p : Nat) (b : Block) (hb : b ∈ c.drop p) : p ≤ b.height := by
+  obtain ⟨i, hi, rfl⟩ := List.getElem_of_mem hb
+  have hi' : p + i < c.length := by simp [List.length_drop] at hi; omega
+  rw [List.getElem_drop]
+  rw [hl (p + i) hi']; omega
+
+theorem lastHeight_linked (c : Chain) (hl : Linked c) (hne : c ≠ []) : lastHeight c = some (c.length - 1) := by
+  simp only [lastHeight]
+  rw [List.getLast?_eq_getElem?]
+  have : c.length - 1 < c.length := by
+    have := List.length_pos_iff.mpr hne; omega
+  simp [List.getElem?_eq_getElem this, hl (c.length - 1) this]
+
+
+theorem linked_take (c : Chain) (hl : Linked c) (p : Nat) : Linked (c.take p) := by
+  intro i hi
+  have hi' : i < p ∧ i < c.length := by
+    have := hi; simp only [List.length_take] at this; omega
+  rw [List.getElem_take]
+  exact hl i hi'.2
+
+/-- **proof_by_block_refines** (repaired code).  For a chain of consecutive heights, wherever it is cut
+between the permanent store and the temps, `Center.SuffrageProofByBlockHeight(h)` is the newest proof at
+or below `h` of the committed chain, and nothing above the last height. -/
+theorem proof_by_block_refines (c : Chain) (hl : Linked c) (p h : Nat) :
+    ctrProofByBlock fixed (ofChain c p) h = specProofByBlock c h := by
+  by_cases hT : c.drop p = []
+  · -- nothing in temps: the permanent store holds the whole chain
+    have hp : c.length ≤ p := List.drop_eq_nil_iff.mp hT
+    simp [ctrProofByBlock, ofChain, hT, List.take_of_length_le hp]
+  · have hplt : p < c.length := by
+      apply Nat.lt_of_not_ge
+      intro hh
+      exact hT (List.drop_eq_nil_iff.mpr hh)
+    have hne : c ≠ [] := by intro e; simp [e] at hplt
+    have hsplit : c = c.take p ++ c.drop p := (List.take_append_drop p c).symm
+    -- the newest temp is the chain's last block
+    have hlastT : (c.drop p).getLast? = c.getLast? := by
+      rw [List.getLast?_drop]
+      have : ¬ c.length ≤ p := by omega
+      simp [this]
+    obtain ⟨newest, hnew⟩ : ∃ b, c.getLast? = some b := by
+      cases hc : c.getLast? with
+      | none => exact absurd (List.getLast?_eq_none_iff.mp hc) hne
+      | some b => exact ⟨b, rfl⟩
+    have hnh : newest.height = c.length - 1 := by
+      have := lastHeight_linked c hl hne
+      simp only [lastHeight, hnew, Option.map_some, Option.some.injEq] at this
+      exact this
+    obtain ⟨rest, hte⟩ : ∃ rest, (c.drop p).reverse = newest :: rest := by
+      have h1 : ((c.drop p).reverse).head? = some newest := by
+        rw [List.head?_reverse, hlastT, hnew]
+      cases hr : (c.drop p).reverse with
+      | nil => simp [hr] at h1
+      | cons a r => simp [hr] at h1; exact ⟨r, by rw [h1]⟩
+    have hlow : (newest :: rest).getLast? = some (c[p]'hplt) := by
+      rw [← hte, List.getLast?_reverse, List.head?_drop]; simp [hplt]
+    have hlowh : (c[p]'hplt).height = p := hl p hplt
+    have hctr : ofChain c p = { perm := c.take p, temps := newest :: rest } := by simp [ofChain, hte]
+    rw [hctr]
+    simp only [ctrProofByBlock, fixed, hlow, Option.map_some, Option.getD_some, hlowh, specProofByBlock,
+      lastHeight_linked c hl hne, hnh, if_true]
+    rw [← hte]
+    by_cases hgt : c.length - 1 < h
+    · simp [hgt]
+    · simp only [hgt, if_false]
+      -- the specification read, split at the cut
+      have hspec : (c.filter (fun b => b.height ≤ h)).reverse.findSome? (fun b => b.suf.map (·.2)) =
+          (match ((c.drop p).filter (fun b => b.height ≤ h)).reverse.findSome? (fun b => b.suf.map (·.2)) with
+           | some id => some id
+           | none => ((c.take p).filter (fun b => b.height ≤ h)).reverse.findSome? (fun b => b.suf.map (·.2))) := by
+        conv => lhs; rw [hsplit]
+        rw [List.filter_append, List.reverse_append, List.findSome?_append]
+        cases ((c.drop p).filter (fun b => b.height ≤ h)).reverse.findSome? (fun b => b.suf.map (·.2)) <;> simp
+      rw [hspec]
+      have hfr : ((c.drop p).reverse.filter (fun b => b.height ≤ h)) = ((c.drop p).filter (fun b => b.height ≤ h)).reverse := by
+        rw [List.filter_reverse]
+      rw [hfr]
+      by_cases hph : p ≤ h
+      · simp only [hph, if_true]
+        cases hin : ((c.drop p).filter (fun b => b.height ≤ h)).reverse.findSome? (fun b => b.suf.map (·.2)) with
+        | some id => simp
+        | none =>
+          simp only []
+          by_cases hp0 : p = 0
+          · simp [hp0]
+          · simp only [hp0, if_false]
+            have hPlen : (c.take p).length = p := by rw [List.length_take]; omega
+            have hPne : c.take p ≠ [] := by
+              intro e
+              rw [e] at hPlen
+              simp only [List.length_nil] at hPlen
+              omega
+            simp only [lastHeight_linked (c.take p) (linked_take c hl p) hPne, hPlen]
+            have : ¬ (p - 1 < min h (p - 1)) := by omega
+            simp only [this, if_false]
+            congr 2
+            apply List.filter_congr
+            intro b hb
+            have := take_heights c hl p b hb
+            simp only [decide_eq_decide]
+            omega
+      · -- the asked height is below every temp
+        simp only [hph, if_false]
+        have hempty : (c.drop p).filter (fun b => b.height ≤ h) = [] := by
+          apply List.filter_eq_nil_iff.mpr
+          intro b hb
+          have := drop_heights c hl p b hb
+          simp only [decide_eq_true_eq]; omega
+        simp only [hempty, List.reverse_nil, List.findSome?_nil]
+        by_cases hp0 : p = 0
+        · omega
+        · simp only [hp0, if_false]
+          have hPlen : (c.take p).length = p := by rw [List.length_take]; omega
+          have hPne : c.take p ≠ [] := by
+            intro e
+            rw [e] at hPlen
+            simp only [List.length_nil] at hPlen
+            omega
+          simp only [lastHeight_linked (c.take p) (linked_take c hl p) hPne, hPlen]
+          have : ¬ (p - 1 < min h (p - 1)) := by omega
+          simp only [this, if_false]
+          congr 2
+          apply List.filter_congr
+          intro b hb
+          have := take_heights c hl p b hb
+          simp only [decide_eq_decide]
+          omega
+
 end Mitum.C19
